@@ -270,7 +270,10 @@ impl dyn Submessage + Send + '_ {
         let pos = buf.position();
         buf.set_position(header_position);
         let len = pos - elements_position;
-        self.write_submessage_header_into_bytes(len as u16, buf);
+        // A submessage that does not fit the 16 bit length field can only be the last one of the
+        // message, which is indicated by octetsToNextHeader = 0 (extends to the end of the message)
+        let octets_to_next_header = u16::try_from(len).unwrap_or(0);
+        self.write_submessage_header_into_bytes(octets_to_next_header, buf);
         buf.set_position(pos);
     }
 }
